@@ -447,8 +447,8 @@ type recHandler struct {
 }
 
 func (h *recHandler) Enabled(context.Context, slog.Level) bool { return true }
-func (h *recHandler) WithAttrs([]slog.Attr) slog.Handler        { return h }
-func (h *recHandler) WithGroup(string) slog.Handler             { return h }
+func (h *recHandler) WithAttrs([]slog.Attr) slog.Handler       { return h }
+func (h *recHandler) WithGroup(string) slog.Handler            { return h }
 func (h *recHandler) Handle(_ context.Context, rec slog.Record) error {
 	if rec.Message != "received response" && rec.Message != "evaluated response" {
 		return nil
